@@ -144,7 +144,7 @@ func (te *tableEngine) calcLeavePlayers(status TableStateStatus, leavePlayerIDs 
 	return newPlayerStates, newSeatMap, newGamePlayerIndexes
 }
 
-func (te *tableEngine) createPlayerGameAction(playerID string, playerIdx int, action string, chips int64, player *pokerface.PlayerState) *TablePlayerGameAction {
+func (te *tableEngine) createPlayerGameAction(playerID string, playerIdx int, action string, chips int64, gs *pokerface.GameState, player *pokerface.PlayerState) *TablePlayerGameAction {
 	pga := &TablePlayerGameAction{
 		CompetitionID: te.table.Meta.CompetitionID,
 		TableID:       te.table.ID,
@@ -155,9 +155,11 @@ func (te *tableEngine) createPlayerGameAction(playerID string, playerIdx int, ac
 		Chips:         chips,
 	}
 
-	if te.table.State.GameState != nil {
-		pga.GameID = te.table.State.GameState.GameID
-		pga.Round = te.table.State.GameState.Status.Round
+	// hand and round are those of the state the action produced: the live hand state is updated by the hand's own
+	// goroutine and may have moved on (next round, or an error state) by the time the action is recorded
+	if gs != nil {
+		pga.GameID = gs.GameID
+		pga.Round = gs.Status.Round
 	}
 
 	if playerIdx < len(te.table.State.PlayerStates) {
